@@ -5,19 +5,26 @@ def spec(tier):
     th = tier == "thorough"
     obs = []
     K = 12 if th else 10
-    shapes = [("chain3", "single", "chain2"), ("diamond", "tworoots2", "single")] + ([("fanout3", "fanin3", "chain2")] if th else [])
+    shapes = [("chain3", "single", "chain2"), ("diamond", "tworoots2", "single"), ("fanout3", "tworoots2", "chain2")] + ([("fanin3", "fork4", "chain2")] if th else [])
     for pools in (1, 2, 3):
         for multi in (True, False):
             for si, (s1, s2, s3) in enumerate(shapes):
                 if not th and pools == 3 and si > 0:
                     continue
                 cfg = dict(algo="naive", pools=pools, multi=multi, K=K,
-                           pipes=[pipe(s1, prio=3, at=0, durs=["da", 1, 1, 1], mems=["ma", 1, 1, 1]),
-                                  pipe(s2, prio=1, at="ta", durs=[1, "db"], mems=[1, 1]),
+                           pipes=[pipe(s1, prio=3, at=0, durs=[1, "da", 1, 1], mems=[1, "ma", 1, 1]),      # a non-root operator may fail / be slow
+                                  pipe(s2, prio=1, at="ta", durs=[1, "db"], mems=["mb", 1]),                 # with two roots: the first root may fail
                                   pipe(s3, prio=2, at="tb", durs=[2, 1], mems=[1, "mb"])])
                 obs.append(CH(name=f"naive_P{pools}_{'multi' if multi else 'single'}_s{si}", harness="sched.naive",
                               sym=dict(cpus=I(1, 8), ram=I(1, 20), ma=I(1, 22), mb=I(1, 22), ta=I(0, 3), tb=I(0, 3), da=I(1, 2), db=I(1, 2)),
                               fixed=dict(cfg=cfg), timeout=900))
+    # a join operator whose parents finish at different times on different pools (single-operator containers)
+    cfgj = dict(algo="naive", pools=2, multi=False, K=K,
+                pipes=[pipe("diamond", prio=3, at=0, durs=[1, "da", "db", 1]), pipe("single", prio=1, at="ta", durs=[1]), pipe("single", prio=2, at="tb", durs=[1])])
+    for dav in ((1, 2, 3, 4) if th else (1, 3)):
+        for (lo, hi) in ((0, 2), (3, 5)):
+            obs.append(CH(name=f"naive_join_timing_da{dav}_ta{lo}", harness="sched.naive", sym=dict(db=I(1, 4), ta=I(lo, hi), tb=I(0, 5)),
+                          fixed=dict(cfg=cfgj, cpus=2, ram=10, ma=1, mb=1, da=dav), timeout=1200))
     cfg = dict(algo="naive", pools=2, multi=True, K=K,
                pipes=[pipe("chain3", prio=3, at=0, durs=["da", 1, 1], mems=["ma", 1, 1]), pipe("single", prio=1, at="ta", durs=[1]),
                       pipe("chain2", prio=2, at="tb", durs=[2, 1], mems=[1, "mb"])])
